@@ -165,6 +165,11 @@ def summarize(prop, tier, seed, meta, results, wall, quiet=False):
                 hit = [f for f in known if finding_matches(f, prop, o['name'], rep)]
                 if hit:
                     known_hits.append((hit[0], o['name']))
+                    # an open known finding is reported separately and is not part of the proved set
+                    if is_bounded:
+                        n_bounded -= 1
+                    else:
+                        n_obl -= 1
                     continue
                 in_base = baseline is not None and o['name'] in baseline.get('discharged', [])
                 if rep.get('reproduced'):
@@ -236,6 +241,8 @@ def summarize(prop, tier, seed, meta, results, wall, quiet=False):
             'bounded': bounded_list, 'bounded_obligations': n_bounded, 'bounded_ok': n_bounded_ok,
             'crosscheck_native_runs': cross_runs, 'crosscheck_clause_evaluations': cross_evals,
             'known_findings_reported': [f.get('id') for f, _ in known_hits],
+            'known_finding_obligations': sorted(set(o for _, o in known_hits)),
+            'obligations_note': "'obligations' excludes the obligations listed under known_finding_obligations (open, recorded defects of /repo reported as KNOWN-FINDING)",
             'out_of_reach_clauses': meta.get('out_of_reach', []),
             'obligation_names': sorted(set(all_names)),
             'undecided': undecided, 'broken': broken,
